@@ -198,6 +198,18 @@ def gen_walk(rng):
            "SpeechStyle": rng.choice(["ClearSpeak", "SimpleSpeak"]), "BrailleCode": rng.choice(["Nemeth", "Nemeth", "UEB"])}
     if cfg["SpeechStyle"] not in configs.styles(cfg["Language"]):
         cfg["SpeechStyle"] = configs.styles(cfg["Language"])[0]
+    if rng.random() < 0.004:
+        # a marathon on ONE expression: more than a thousand position-changing moves (a reader going back and forth through a long
+        # derivation), then the way back with 'undo': every undo still returns to the position that was current before the undone move
+        steps = [["set", gen_expression(rng)]]
+        pairs = [("MoveNext", "MovePrevious"), ("ZoomIn", "ZoomOut"), ("MoveNext", "MovePrevious"), ("MoveEnd", "MoveStart"), ("ZoomInAll", "ZoomOutAll")]
+        while len(steps) < rng.choice([1030, 1100, 1300]):
+            a, b = rng.choice(pairs)
+            k = rng.randint(1, 3)
+            steps += [["cmd", a]] * k + [["cmd", b]] * k
+        steps += [["cmd", "MoveLastLocation"]] * rng.choice([3, 40, 600, 700])
+        steps += [["cmd", "MoveNext"], ["cmd", "MoveLastLocation"]]
+        return {"cfg": cfg, "steps": steps}
     length = int(round(math.exp(rng.uniform(math.log(5), math.log(200)))))
     nexpr = min(rng.choice([1, 2, 2, 3, 3, 4]), max(1, length // 3))
     set_at = {0} | set(rng.sample(range(2, max(3, length)), nexpr - 1)) if nexpr > 1 else {0}
